@@ -1,5 +1,12 @@
-// Correspondence harness for property C19: drives the real MEM::BlockAlloc<Elem, N> (N = 2, 3, 256)
+// Correspondence harness for property C19: drives the real MEM::BlockAlloc<T, N> (N = 2, 3, 256)
 // with the line protocol of lean/Driver/BlockAlloc.lean and prints the same observation lines.
+//
+// `pool <N> [e16|s1|s2|s3|h2]`: the element type.  e16 (default) = `Elem`, alignas(16), owns a forest of other
+// elements; s1 / s2 / s3 = 1-, 2-, 3-byte types of alignment 1, h2 = a 2-byte type of alignment 2 (info_t then
+// ends in padding: the header size is NOT sizeof(info_t) - sizeof(T)).  The small types cannot own anything
+// (`own` is answered bad-op); their destructor looks its id up by address and checks its fill pattern.
+// The slot a pointer denotes is located with the header offset computed HERE (offsetof(info_t, data)), not
+// with block_s::getHeaderSize(): a pool that locates a different slot than the layout says is a difference.
 //
 // What is observed, all from the real object:
 //   * the (block, slot index) of every pointer Alloc returns, recovered from the address exactly the
@@ -17,6 +24,8 @@
 #include "lineio.h"
 
 #include <algorithm>
+#include <cstddef>
+#include <cstring>
 #include <cstdint>
 #include <cstdlib>
 #include <map>
@@ -58,17 +67,22 @@ struct PoolIface {
     // (block base, index) of a payload pointer, computed as BlockAlloc::Free computes it
     virtual void locate(void* p, uintptr_t& base, size_t& idx, uintptr_t& payloadOfIdx) = 0;
     virtual size_t blockSize() const = 0;
+    virtual size_t elemSize() const = 0;
+    virtual size_t elemAlign() const = 0;
+    virtual bool hasOwnership() const = 0;
+    virtual void construct(void* p, size_t id) = 0;
+    virtual void destroyAndFree(void* p) = 0;     // `p->~T(); pool.Free(p);`
 };
 
 PoolIface* g_pool = nullptr;
 std::string g_flags;                 // anomalies seen while executing the current line
 std::vector<size_t> g_destroyed;     // ids in the order their destructors completed
 std::map<uintptr_t, size_t> g_liveAddr;   // payload address -> id  (what the host still uses)
-std::vector<Elem*> g_elem;           // id -> live element (index 0 unused)
+std::vector<void*> g_elem;           // id -> live element (index 0 unused)
 
 void flag(const char* f) { if (g_flags.find(f) == std::string::npos) { g_flags += ' '; g_flags += f; } }
 
-void releaseTracking(Elem* e);
+void releaseTracking(void* e);
 
 // ---- the pooled element: owns other elements of the same pool ---------------------------------
 struct alignas(16) Elem {
@@ -99,30 +113,87 @@ struct alignas(16) Elem {
     }
 };
 
-void releaseTracking(Elem* e) { g_liveAddr.erase((uintptr_t)e); }
+void releaseTracking(void* e) { g_liveAddr.erase((uintptr_t)e); }
 
-template<size_t BS>
+// ---- small pooled elements (1, 2, 3 bytes): no room for an id, the address is the identity --------
+inline uint8_t fillOf(size_t id) { return (uint8_t)(id * 37u + 11u); }
+
+void smallDestroyed(const void* self, const uint8_t* bytes, size_t n)
+{
+    auto it = g_liveAddr.find((uintptr_t)self);
+    const size_t id = it == g_liveAddr.end() ? 0 : it->second;     // 0: the pool destroyed something the host does not own
+    for (size_t i = 0; i < n; ++i) if (bytes[i] != fillOf(id)) flag("!corrupt");
+    g_destroyed.push_back(id);
+}
+
+template<size_t N>
+struct Small {                       // sizeof N, alignof 1
+    uint8_t b[N];
+    explicit Small(size_t id) { std::memset(b, fillOf(id), N); }
+    ~Small() { smallDestroyed(this, b, N); }
+};
+struct Half {                        // sizeof 2, alignof 2
+    uint16_t h;
+    explicit Half(size_t id) : h((uint16_t)(fillOf(id) | (fillOf(id) << 8))) {}
+    ~Half() { smallDestroyed(this, reinterpret_cast<const uint8_t*>(&h), 2); }
+};
+static_assert(sizeof(Small<1>) == 1 && sizeof(Small<2>) == 2 && sizeof(Small<3>) == 3 && alignof(Small<3>) == 1, "small element layout");
+static_assert(sizeof(Half) == 2 && alignof(Half) == 2, "small element layout");
+
+template<typename T> struct ElemTraits {
+    static constexpr bool owns = false;
+    static void construct(void* p, size_t id) { new (p) T(id); }
+    static void destroy(void* p) { static_cast<T*>(p)->~T(); }
+};
+template<> struct ElemTraits<Elem> {
+    static constexpr bool owns = true;
+    static void construct(void* p, size_t id) { new (p) Elem(id); }
+    static void destroy(void* p) { static_cast<Elem*>(p)->~Elem(); }
+};
+
+template<typename T, size_t BS>
 struct Pool : public PoolIface {
-    using block_t = MEM::block_s<Elem, BS>;
+    using block_t = MEM::block_s<T, BS>;
+    using info_t = typename block_t::info_t;
     static_assert(sizeof(typename block_t::offset_t) * 8 >= 8 && ((size_t)1 << (sizeof(typename block_t::offset_t) * 8)) >= BS,
                   "offset_t must be able to index every slot");
-    MEM::BlockAlloc<Elem, BS> a;
+    MEM::BlockAlloc<T, BS> a;
     void* Alloc() override { return a.Alloc(); }
     void Free(void* p) override { a.Free(p); }
     void FreeAll() override { a.FreeAll(); }
     size_t Count() override { return a.Count(); }
     size_t BlockCount() override { return a.BlockCount(); }
     size_t blockSize() const override { return sizeof(block_t); }
+    size_t elemSize() const override { return sizeof(T); }
+    size_t elemAlign() const override { return alignof(T); }
+    bool hasOwnership() const override { return ElemTraits<T>::owns; }
+    void construct(void* p, size_t id) override { ElemTraits<T>::construct(p, id); }
+    void destroyAndFree(void* p) override { ElemTraits<T>::destroy(p); releaseTracking(p); a.Free(p); }
     void locate(void* ptr, uintptr_t& base, size_t& idx, uintptr_t& payloadOfIdx) override
     {
-        typename block_t::info_t* header = reinterpret_cast<typename block_t::info_t*>(
-            static_cast<unsigned char*>(ptr) - block_t::getHeaderSize());
-        idx = header->index;
-        block_t* const block = (block_t*)((uint8_t*)header - idx * block_t::datasize - block_t::dataoffset);
-        base = (uintptr_t)block;
-        payloadOfIdx = idx < BS && g_mm.blocks.count(base) ? (uintptr_t)block->data[idx].data : 0;
+        // the layout's own answer: the payload is the member `data` of an info_t
+#pragma GCC diagnostic push
+#pragma GCC diagnostic ignored "-Winvalid-offsetof"
+        constexpr size_t headerSize = offsetof(info_t, data);
+#pragma GCC diagnostic pop
+        info_t* header = reinterpret_cast<info_t*>(static_cast<unsigned char*>(ptr) - headerSize);
+        // the block that contains the pointer, from the memory manager's records (not from the header)
+        auto it = g_mm.blocks.upper_bound((uintptr_t)ptr);
+        if (it == g_mm.blocks.begin()) { base = 0; idx = 0; payloadOfIdx = 0; return; }
+        --it;
+        if ((uintptr_t)ptr >= it->first + it->second.second) { base = 0; idx = 0; payloadOfIdx = 0; return; }
+        block_t* const block = (block_t*)it->first;
+        base = it->first;
+        // the slot whose payload this is, by address arithmetic over the real array
+        const size_t k = (size_t)((uint8_t*)header - (uint8_t*)&block->data[0]) / sizeof(info_t);
+        idx = k;
+        payloadOfIdx = k < BS ? (uintptr_t)block->data[k].data : 0;
+        // ... and what the slot header says (what BlockAlloc::Free will read)
+        if (k < BS && (size_t)block->data[k].index != k) flag("!bad-index");
     }
 };
+
+Elem* asElem(size_t id) { return static_cast<Elem*>(g_elem[id]); }
 
 bool isAncestor(Elem* a, Elem* x)
 {
@@ -167,11 +238,21 @@ int main()
         const std::string& op = t.empty() ? std::string() : t[0];
         g_flags.clear();
         g_destroyed.clear();
-        if (op == "pool" && numeric && n.size() == 1 && (n[0] == 2 || n[0] == 3 || n[0] == 256)) {
+        if (op == "pool" && (t.size() == 2 || t.size() == 3)) {
+            const std::string kind = t.size() == 3 ? t[2] : "e16";
+            std::vector<std::string> t2(t.begin(), t.begin() + 2);
+            std::vector<size_t> bsv;
+            if (!parseNats(t2, 1, bsv) || bsv.size() != 1 || !(bsv[0] == 2 || bsv[0] == 3 || bsv[0] == 256) ||
+                !(kind == "e16" || kind == "s1" || kind == "s2" || kind == "s3" || kind == "h2")) { say("bad-op"); continue; }
             dropPool();
-            if (n[0] == 2) g_pool = new Pool<2>();
-            else if (n[0] == 3) g_pool = new Pool<3>();
-            else g_pool = new Pool<256>();
+            const size_t bs = bsv[0];
+#define MKPOOL(T) (bs == 2 ? (PoolIface*)new Pool<T, 2>() : bs == 3 ? (PoolIface*)new Pool<T, 3>() : (PoolIface*)new Pool<T, 256>())
+            if (kind == "e16") g_pool = MKPOOL(Elem);
+            else if (kind == "s1") g_pool = MKPOOL(Small<1>);
+            else if (kind == "s2") g_pool = MKPOOL(Small<2>);
+            else if (kind == "s3") g_pool = MKPOOL(Small<3>);
+            else g_pool = MKPOOL(Half);
+#undef MKPOOL
             say("ok");
             continue;
         }
@@ -181,24 +262,24 @@ int main()
             void* p = g_pool->Alloc();
             const size_t id = g_elem.size();
             uintptr_t base = 0, payload = 0; size_t idx = 0;
+            if ((uintptr_t)p % g_pool->elemAlign() != 0) flag("!misaligned");
             g_pool->locate(p, base, idx, payload);
             std::string b = "?";
             auto it = g_mm.blocks.find(base);
             if (it == g_mm.blocks.end()) flag("!unknown-block");
             else {
                 b = std::to_string(it->second.first);
-                if ((uintptr_t)p < base || (uintptr_t)p + sizeof(Elem) > base + it->second.second) flag("!outside-block");
+                if ((uintptr_t)p < base || (uintptr_t)p + g_pool->elemSize() > base + it->second.second) flag("!outside-block");
                 if (payload != (uintptr_t)p) flag("!bad-index");
             }
-            if ((uintptr_t)p % alignof(Elem) != 0) flag("!misaligned");
             // must not overlap anything the host still uses
             auto nx = g_liveAddr.lower_bound((uintptr_t)p);
-            if (nx != g_liveAddr.end() && nx->first < (uintptr_t)p + sizeof(Elem)) flag("!overlap");
-            if (nx != g_liveAddr.begin()) { auto pv = std::prev(nx); if (pv->first + sizeof(Elem) > (uintptr_t)p) flag("!overlap"); }
+            if (nx != g_liveAddr.end() && nx->first < (uintptr_t)p + g_pool->elemSize()) flag("!overlap");
+            if (nx != g_liveAddr.begin()) { auto pv = std::prev(nx); if (pv->first + g_pool->elemSize() > (uintptr_t)p) flag("!overlap"); }
             checkBlockCount();
             if (g_flags.find("!overlap") == std::string::npos) {
-                Elem* e = new (p) Elem(id);
-                g_elem.push_back(e);
+                g_pool->construct(p, id);
+                g_elem.push_back(p);
                 g_liveAddr[(uintptr_t)p] = id;
             } else {
                 g_elem.push_back(nullptr);     // do not construct over a live object
@@ -206,17 +287,14 @@ int main()
             say("ok id=" + std::to_string(id) + " b=" + b + " i=" + std::to_string(idx) +
                 " blocks=" + std::to_string(g_pool->BlockCount()) + g_flags);
         } else if (op == "own" && n.size() == 2) {
-            if (live(n[0]) && live(n[1]) && n[0] != n[1] && !g_elem[n[1]]->parent && !isAncestor(g_elem[n[1]], g_elem[n[0]])) {
-                g_elem[n[1]]->parent = g_elem[n[0]];
-                g_elem[n[0]]->kids.push_back(g_elem[n[1]]);
+            if (g_pool->hasOwnership() && live(n[0]) && live(n[1]) && n[0] != n[1] && !asElem(n[1])->parent && !isAncestor(asElem(n[1]), asElem(n[0]))) {
+                asElem(n[1])->parent = asElem(n[0]);
+                asElem(n[0])->kids.push_back(asElem(n[1]));
                 say("ok");
             } else say("bad-op");
         } else if (op == "del" && n.size() == 1) {
             if (!live(n[0])) { say("bad-op"); continue; }
-            Elem* e = g_elem[n[0]];
-            e->~Elem();
-            releaseTracking(e);
-            g_pool->Free(e);
+            g_pool->destroyAndFree(g_elem[n[0]]);
             for (size_t id : g_destroyed) if (id < g_elem.size()) g_elem[id] = nullptr;
             checkBlockCount();
             say("ok d=" + idList(g_destroyed) + " blocks=" + std::to_string(g_pool->BlockCount()) + g_flags);
